@@ -174,6 +174,10 @@ class CSSUnknownRule(cssrule.CSSRule):
             wellformed, expected = self._parse(expected=None,
                                                seq=newseq, tokenizer=tokenizer,
                                                productions={'CHAR': CHAR,
+                                                            # a nested at-keyword is a token of this rule
+                                                            # (the default would pull a rule of its own up to
+                                                            # ITS end and hide this rule's terminator)
+                                                            'ATKEYWORD': default,
                                                             'EOF': EOF,
                                                             'FUNCTION': FUNCTION,
                                                             'INVALID': INVALID,
